@@ -187,6 +187,9 @@ const TRICKY_DOCS: &[&str] = &[
     "<a xmlns:p=\"u\" xmlns:q=\"u\"><p:b q:k=\"v\"><q:c xmlns:p=\"w\" p:k=\"v\"/></p:b></a>",
     "<a xmlns=\"u\"><b xmlns=\"\"><c xmlns=\"u\"/></b></a>",
     "<a xml:id=\" i \" xml:space=\"default\"><b xml:id=\"j\" xml:lang=\"\"/></a>",
+    "<a>x<![CDATA[y]]>z<![CDATA[]]><![CDATA[]]>w<b/><![CDATA[]]>t</a>",
+    "<a xmlns:p=\"u\" p:xmlns=\"v\" xmlns=\"w\"><b p:xmlns=\"\"/></a>",
+    "<?xml-stylesheet encoding=\"ISO-8859-1\"?><?XMLx?><a>\u{e9}<?xmlns a?></a>",
 ];
 
 fn arbitrary_text(rng: &mut Rng) -> String {
@@ -429,6 +432,7 @@ pub fn break_it(doc: &ANode, r: &Rendered, k: usize, rng: &mut Rng, fragment: bo
                 // xmlns:p="" binds p to nothing: the prefix stays undeclared (and the declaration itself is not allowed)
                 0 => b(insert(t, s.end, " xmlns:zq=\"\" zq:k=\"v\""), "prefix-declared-with-empty-value-then-used", false),
                 1 => b(insert(t, s.end, " xmlns:zq=\"\""), "prefix-declared-with-empty-value", false),
+                2 => b(insert(t, s.end, *rng.pick(&[" zz:xmlns=\"urn:v\"", " zz:xml=\"v\"", " zz:id=\"v\"", " zz:zz=\"v\""])), "undeclared-prefix-on-attribute-with-special-local-name", false),
                 _ => b(insert(t, s.end, " zz:k=\"v\""), "undeclared-prefix-on-attribute", false),
             }
         }
@@ -470,7 +474,12 @@ pub fn break_it(doc: &ANode, r: &Rendered, k: usize, rng: &mut Rng, fragment: bo
             }
             match rng.below(5) {
                 0 => b(format!("{}<?pi a", &t[..p]), "unterminated-pi-at-end", false),
-                1 => b(insert(t, p, "<?XML a?>"), "pi-target-XML-uppercase", false),
+                1 => {
+                    // the reserved target in any mix of upper and lower case, with or without data
+                    let target = *rng.pick(&["XML", "Xml", "xMl", "xmL", "XMl", "XmL", "xML"]);
+                    let data = *rng.pick(&[" a", "", " version=\"1.0\"", "\ta"]);
+                    b(insert(t, p, &format!("<?{}{}?>", target, data)), "pi-target-xml-in-other-letter-case", false)
+                }
                 _ => b(insert(t, p, *rng.pick(&["<? x?>", "<?xml version=\"1.0\"?>", "<?>"])), "malformed-pi", false),
             }
         }
@@ -719,8 +728,18 @@ fn mutate_bytes(b: &[u8], rng: &mut Rng) -> Vec<u8> {
 
 impl C03 {
     fn totality_and_loop(&self, ctx: &mut Ctx, input: &Input, origin: &str, eps: &[PEp]) {
+        let len = match input {
+            Input::Text(t) => t.len(),
+            Input::Bytes(b) => b.len(),
+        };
         for ep in eps {
-            let mut xot = Xot::new();
+            // the library's settings and the way the Xot came into being make no difference to the parser: one input
+            // in five meets a Xot with text consolidation switched off, one in seven a Xot from Default
+            let mut xot = if len % 7 == 3 { Xot::default() } else { Xot::new() };
+            if len % 5 == 2 {
+                xot.set_text_consolidation(false);
+                ctx.count("parsed_with_text_consolidation_off");
+            }
             match run_ep(&mut xot, *ep, input) {
                 Err(p) => {
                     ctx.violation(
